@@ -83,6 +83,8 @@ def one_grammar(spec, R, batch, stats, quick):
         ]
         n0 = 3 if quick else 5
         nops = 4 if quick else 12
+        if not any(c["abstract"] and c["name"] == spec["start"] for c in spec["classes"]):
+            nops *= 6       # concrete starting symbol: tree crossover really exchanges subtrees; go several generations deep
         for rname, kind, rep in reps:
             pool = []
             for _ in range(n0):
